@@ -316,3 +316,48 @@ func ZZ_C09_H5() {
 	zz.Assert("recycled-context-indistinguishable-from-fresh", bytes.Equal(dump, freshDump))
 	zz.Assert("probe-response-identical", bytes.Equal(nc2.Out, nc0.Out))
 }
+
+// ZZ_C12_H6: the request context the server hands to the engine, pooled or not (the documented
+// HERTZ_DISABLE_REQUEST_CONTEXT_POOL switch): on every request of a keep-alive connection - the
+// first one included - a chain of n handlers that all call Next is entered from its first
+// handler, each handler once, in registration order.
+func ZZ_C12_H6() {
+	old := disabaleRequestContextPool
+	defer func() { disabaleRequestContextPool = old }()
+	disabaleRequestContextPool = zz.Choose("contextPoolDisabled", 2) == 1
+	n := zz.Range("handlers", 1, 3)
+	var tr []int
+	chain := make(app.HandlersChain, n)
+	for i := range chain {
+		id := i
+		chain[i] = func(c context.Context, ctx *app.RequestContext) {
+			tr = append(tr, id)
+			ctx.Next(c)
+		}
+	}
+	core := zzNewCore(func(c context.Context, ctx *app.RequestContext) {
+		// what Engine.ServeHTTP does with the matched route's chain
+		ctx.SetHandlers(chain)
+		ctx.Next(c)
+	})
+	s := zzNewServer(core)
+	s.IdleTimeout = 1
+	k := zz.Range("requests", 1, 2)
+	wire := []byte("GET /a HTTP/1.1\r\nHost: h\r\n\r\n")
+	if k == 2 {
+		wire = append(wire, "GET /b HTTP/1.1\r\nHost: h\r\n\r\n"...)
+	}
+	nc := zz.NewNetConn(wire)
+	_ = s.Serve(context.Background(), standard.ZZNewConn(nc))
+	zz.Cover("reached-assert", true)
+	zz.Cover("pool-disabled", disabaleRequestContextPool)
+	ok := len(tr) == k*n
+	if ok {
+		for i, id := range tr {
+			if id != i%n {
+				ok = false
+			}
+		}
+	}
+	zz.Assert("chain-entered-from-its-first-handler-on-every-request", ok)
+}
